@@ -37,7 +37,7 @@ def theorems_of(prop):
         return [], p
     src = open(p, encoding="utf8").read()
     names = []
-    for m in re.finditer(r"^theorem\s+([A-Za-z0-9_'.]+)", src, re.M):
+    for m in re.finditer(r"^theorem\s+(\S+)", src, re.M):
         names.append((m.group(1), src[:m.start()].count("\n") + 1))
     return names, p
 
@@ -236,7 +236,7 @@ def main(argv):
     # ---- evidence
     thm_n = len(aud["theorems"])
     thm_ok = 0 if proof_broken and not prep["build_ok"] else len([t for t in aud["theorems"] if t in aud["axioms"] and set(aud["axioms"][t]) <= ALLOWED_AXIOMS])
-    corr_n = len(ctx.corrs)
+    corr_n = len([c for c in ctx.corrs if c.cases > 0 or c.n_mismatch])     # a correspondence that met no case this run is not an obligation of this run
     corr_ok = len([c for c in ctx.corrs if not c.n_mismatch and c.cases > 0])
     samples = list(ctx.samples)
     for c in ctx.corrs:
